@@ -674,7 +674,7 @@ fn main() {
         "From Coq Require Import ZArith List. Import ListNotations. Open Scope Z_scope.\nFrom FV Require Import Lib.Cases C03.Model.",
         "Z * list Z * list Z * list Z",
         "check_case",
-        2400,
+        2800,
     );
     let mut k = Kernels { st, cw };
     kernels(&mut k, &mut rng, thorough);
